@@ -15,7 +15,8 @@ import EupsModel.Model.LockCmd
 * `{"m":"c09","op":"explore","procs":[..],"max":N}` enumerates the reachable states of the configuration (at most
   `N`) and returns a set of maximal schedules that takes every transition of the state graph at least once, plus
   statistics: states, transitions, states violating `Mutex` (the theorem says none), quiescent states with residue
-  (none).  Exploration support for the correspondence check — not part of any proof.
+  (none); with `"signals":true` the graph also has the signal transitions (a signal for a process in its body) and the
+  schedules carry them as `-(i+1)`.  Exploration support for the correspondence check — not part of any proof.
 * `{"m":"c09","op":"cmdtable"}` the lock bracket of the command line (`Model/LockCmd.lean`): per command the registered
   lock type, whether it updates a stack, who releases; `{"op":"cmdline","cmd":name,"help":b,"nolocks":b,"enabled":b,
   "env_path":[..],"Z":[..]|null,"z":n|null}` the lock one command line takes and the stacks it takes it on.
@@ -98,33 +99,44 @@ def snapStep (ps : Array Proc) (x : Snap) (p : Pid) : Snap :=
   let s' := step (snapSt ps x) p
   { dir := s'.dir, files := s'.files, pcs := (List.range ps.size).map s'.pc }
 
+def snapIntr (ps : Array Proc) (x : Snap) (p : Pid) : Snap :=
+  let s' := interrupt (snapSt ps x) p
+  { dir := s'.dir, files := s'.files, pcs := (List.range ps.size).map s'.pc }
+
 def snapInit (ps : Array Proc) : Snap :=
   { dir := false, files := [], pcs := (List.range ps.size).map fun i => PC.mkdir (triesOf ps i) }
 
 structure Graph where
   snaps  : Array Snap
-  parent : Array (Nat × Pid)          -- BFS tree: predecessor state and the pid stepped
-  succ   : Array (Array (Option Nat)) -- per state, per pid: successor (none = process terminated)
+  parent : Array (Nat × Nat)          -- BFS tree: predecessor state and the event taken
+  succ   : Array (Array (Option Nat)) -- per state, per event: successor (none = not enabled)
   full   : Bool                       -- false when the state bound was hit
+  nev    : Nat                        -- events per state: n calls [+ n signals]
 
-def buildGraph (ps : Array Proc) (maxStates : Nat) : Graph := Id.run do
+/-- event `q < n`: the next call of process `q`; event `n + p` (only with `sig`): a signal delivered to process `p`
+in its command body -/
+def evToInt (n q : Nat) : Int := if q < n then (q : Int) else -((q - n : Nat) : Int) - 1
+
+def buildGraph (ps : Array Proc) (maxStates : Nat) (sig : Bool := false) : Graph := Id.run do
   let n := ps.size
+  let nev := if sig then 2 * n else n
   let x0 := snapInit ps
   let mut idx : Std.HashMap Snap Nat := {}
   idx := idx.insert x0 0
   let mut snaps : Array Snap := #[x0]
-  let mut parent : Array (Nat × Pid) := #[(0, 0)]
+  let mut parent : Array (Nat × Nat) := #[(0, 0)]
   let mut succ : Array (Array (Option Nat)) := #[]
   let mut full := true
   let mut u := 0
   while u < snaps.size do
     let x := snaps[u]!
     let mut row : Array (Option Nat) := #[]
-    for p in [0:n] do
-      if terminal (x.pcs.getD p .done) then
+    for q in [0:nev] do
+      let p := if q < n then q else q - n
+      if terminal (x.pcs.getD p .done) || (q ≥ n && !(x.pcs.getD p .done == .hold)) then
         row := row.push none
       else
-        let y := snapStep ps x p
+        let y := if q < n then snapStep ps x p else snapIntr ps x p
         match idx[y]? with
         | some v => row := row.push (some v)
         | none =>
@@ -135,14 +147,14 @@ def buildGraph (ps : Array Proc) (maxStates : Nat) : Graph := Id.run do
             let v := snaps.size
             idx := idx.insert y v
             snaps := snaps.push y
-            parent := parent.push (u, p)
+            parent := parent.push (u, q)
             row := row.push (some v)
     succ := succ.push row
     u := u + 1
-  return { snaps, parent, succ, full }
+  return { snaps, parent, succ, full, nev }
 
-def pathTo (g : Graph) (u : Nat) : List Pid := Id.run do
-  let mut acc : List Pid := []
+def pathTo (g : Graph) (u : Nat) : List Nat := Id.run do
+  let mut acc : List Nat := []
   let mut v := u
   let mut fuel := g.snaps.size + 1
   while v != 0 && fuel > 0 do
@@ -153,15 +165,15 @@ def pathTo (g : Graph) (u : Nat) : List Pid := Id.run do
   return acc
 
 /-- maximal schedules covering every transition of the graph -/
-def pathCover (g : Graph) (n : Nat) : Array (List Pid) := Id.run do
-  let mut covered : Std.HashSet (Nat × Pid) := {}
-  let mut out : Array (List Pid) := #[]
+def pathCover (g : Graph) (n : Nat) : Array (List Nat) := Id.run do
+  let mut covered : Std.HashSet (Nat × Nat) := {}
+  let mut out : Array (List Nat) := #[]
   for u in [0:g.snaps.size] do
     for p in [0:n] do
       if (g.succ[u]!)[p]!.isSome && !covered.contains (u, p) then
-        let mut sched : Array Pid := (pathTo g u).toArray
+        let mut sched : Array Nat := (pathTo g u).toArray
         let mut cur := u
-        let mut nxt : Option Pid := some p
+        let mut nxt : Option Nat := some p
         let mut fuel := 100000
         while nxt.isSome && fuel > 0 do
           let q := nxt.get!
@@ -170,8 +182,8 @@ def pathCover (g : Graph) (n : Nat) : Array (List Pid) := Id.run do
           cur := ((g.succ[cur]!)[q]!).get!
           fuel := fuel - 1
           let row := g.succ[cur]!
-          let mut fresh : Option Pid := none
-          let mut anyp : Option Pid := none
+          let mut fresh : Option Nat := none
+          let mut anyp : Option Nat := none
           for r in [0:n] do
             if row[r]!.isSome then
               if anyp.isNone then anyp := some r
@@ -184,15 +196,16 @@ def opExplore (j : Json) : Except String Json := do
   let ps := (← (← jarr j "procs").mapM procOfJson).toArray
   let maxStates := (jnat j "max").toOption.getD 200000
   let wantSched := (jbool j "schedules").toOption.getD true
+  let sig := (jbool j "signals").toOption.getD false
   let n := ps.size
-  let g := buildGraph ps maxStates
+  let g := buildGraph ps maxStates sig
   let mut edges : Nat := 0
   let mut viol : Nat := 0
   let mut residue : Nat := 0
   let mut quiescent : Nat := 0
   let mut holders2 : Nat := 0
-  let mut violEx : Option (List Pid) := none
-  let mut residueEx : Option (List Pid) := none
+  let mut violEx : Option (List Nat) := none
+  let mut residueEx : Option (List Nat) := none
   for u in [0:g.snaps.size] do
     let x := g.snaps[u]!
     edges := edges + ((g.succ[u]!).filter (·.isSome)).size
@@ -206,13 +219,14 @@ def opExplore (j : Json) : Except String Json := do
       if x.dir || !x.files.isEmpty then
         residue := residue + 1
         if residueEx.isNone then residueEx := some (pathTo g u)
-  let scheds := if wantSched then pathCover g n else #[]
+  let scheds := if wantSched then pathCover g g.nev else #[]
+  let ints := fun (l : List Nat) => toJson (l.map (evToInt n))
   pure (Json.mkObj [
     ("full", g.full), ("states", g.snaps.size), ("edges", edges), ("violating", viol),
     ("quiescent", quiescent), ("residue", residue), ("two_holders", holders2),
-    ("violating_example", match violEx with | some l => toJson l | none => Json.null),
-    ("residue_example", match residueEx with | some l => toJson l | none => Json.null),
-    ("schedules", Json.arr (scheds.map fun l => toJson l))])
+    ("violating_example", match violEx with | some l => ints l | none => Json.null),
+    ("residue_example", match residueEx with | some l => ints l | none => Json.null),
+    ("schedules", Json.arr (scheds.map fun l => ints l))])
 
 /-! ### several stacks -/
 
